@@ -63,9 +63,9 @@ META = dict(
                  "required; mass, abundance and density of ions are not judged (the statement names elements and isotopes)"],
     level_text="complete over the finite domain (all 119 elements, all isotopes, all table rows) in each explored "
                "configuration; configurations are bounded (one or two private tables)",
-    level_note="pinned copy of the four tables (mc/ref/pinned_tables.json) made with the independent text readers in "
-               "mc/ref/tables.py; value(unc), [nominal], [low,high] notations re-implemented with decimal alignment; nothing "
-               "is read from the source of the tree under test at run time",
+    level_note="independent text readers in mc/ref/tables.py read the four tables from the text of the tree under test "
+               "(value(unc), [nominal], [low,high] notations re-implemented with decimal alignment); where that text is "
+               "unreadable the pinned copy mc/ref/pinned_tables.json made with the same readers from the unchanged tree is used",
 )
 
 from ..configs import (LAZY, EVENTS, QUICK_PATHS, all_paths, apply_event, judged_tables, atom_routes, restored_labels,
